@@ -153,6 +153,10 @@ impl<'grammar> TypeInferencer<'grammar> {
             debug_assert!(self.types.lookup_nonterminal_type(id).is_some());
         }
 
+        for id in &ids {
+            self.validate_tuple_patterns(id)?;
+        }
+
         Ok(self.types)
     }
 
@@ -227,10 +231,15 @@ impl<'grammar> TypeInferencer<'grammar> {
             Ok(alternative_types.pop().unwrap())
         })?;
 
-        // Record the type before validating tuple patterns: a pattern may be applied to a
-        // (recursive) reference to this very nonterminal.
         self.types.add_type(id.clone(), ty.clone());
+        Ok(ty)
+    }
 
+    /// Checks the tuple patterns (`<(a, b):X>`) of one nonterminal against the type of `X`.
+    /// Runs once all types are known: doing it while the types are still being computed made
+    /// the outcome depend on the order in which the nonterminals happened to be visited.
+    fn validate_tuple_patterns(&mut self, id: &NonterminalString) -> NormResult<()> {
+        let nt = self.nonterminals[id];
         for alt in nt.alternatives {
             let symbols = &alt.expr.symbols;
             for (t, s) in symbols.iter().filter_map(Symbol::as_tuple) {
@@ -247,8 +256,7 @@ impl<'grammar> TypeInferencer<'grammar> {
                 validate_tuple(s.span, t, &ty)?;
             }
         }
-
-        Ok(ty)
+        Ok(())
     }
 
     fn push<F, R>(&mut self, id: &NonterminalString, f: F) -> NormResult<R>
